@@ -192,8 +192,14 @@ func init() {
 			txn := types.Transaction{SiafundInputs: []types.SiafundInput{{ParentID: sfid, UnlockConditions: *ai.uc, ClaimAddress: w.advAddr()}},
 				SiafundOutputs: []types.SiafundOutput{{Value: e.SiafundOutput.Value, Address: e.SiafundOutput.Address}}}
 			wl.signV1(sc.s, &txn, types.Hash256(sfid), *ai.uc)
-			w.makePartial(&txn)
+			kind := "partial"
+			if w.tape.Chance(1, 2) {
+				w.makePartial(&txn)
+			} else {
+				kind = "whole" // (a transaction that spends siafunds only: no siacoin input carries the era for it)
+			}
 			wl.finishV1(sc.s, &txn, map[types.Hash256]types.UnlockConditions{types.Hash256(sfid): *ai.uc})
+			b.name = kind + "-" + b.name
 			verr, ok := sc.offer([]types.Transaction{txn}, nil, offerOpt{})
 			w.expect("C12", "S2-partial-siafund-"+b.name+"-before", verr, ok, true, "siafund transfer with explicit covered fields offered in the era it was signed in")
 			if !sc.extend(sc.nextTimestamp()) {
